@@ -832,6 +832,18 @@ def _run_wiring(ctx, c, use_global=False, dist=None, tag=""):
             if got_s is not None and np.array_equal(got_s, ref):
                 ctx.observations.setdefault("scipy_family_judged_by_seeded_draws", {})[fam] = True
                 return
+            # ... but draws that are, bit for bit, scipy's draws for the SAME family with the shape arguments in another order are
+            # a wrong request (not another algorithm)
+            import itertools as _it
+            for perm in _it.permutations(range(len(pos))):
+                if list(perm) == list(range(len(pos))) or got_s is None:
+                    continue
+                alt = target.rvs(*[pos[i] for i in perm], loc=spec_args.get("loc", 0.0), scale=spec_args.get("scale", 1.0), size=(N, dim),
+                                 random_state=np.random.RandomState(12345)).T
+                if np.array_equal(got_s, alt):
+                    ctx.mismatch("wiring_args/" + sig + "/permuted", c, "seeded draws are those of scipy.stats.%s for the shape arguments %s in the "
+                                 "order %s" % (name, shapes, [shapes[i] for i in perm]), [shapes[i] for i in range(len(pos))], [shapes[i] for i in perm])
+                    return
             machinery("%s.sample made no call of scipy.stats.%s (rvs of the class) and its seeded draws are not scipy's: "
                       "the base request cannot be observed" % (fam, name))
         if len(rec["calls"]) != 1:
